@@ -229,6 +229,9 @@ impl BuiltinProp {
     // -------------------------------------------------------------- C13
     fn func_sides(&self, s: &mut dyn Src, rep: &mut Report) -> CaseResult {
         let mut sc = Scn::new();
+        // 1 case in 4: the two operands meet as corresponding arguments of two complex terms (w(k, F) = w(k, P)), the
+        // way a goal's function argument meets a fact's constant; drawn first so that it is not starved by long programs
+        let wrap = match s.draw(8) { 0 => 1, 1 => 2, _ => 0 };
         let gen_fun = |s: &mut dyn Src, sc: &mut Scn| -> Term {
             if chance(s, 1, 3) {
                 let n = 1 + sz(s, 4, 12) as usize;
@@ -297,7 +300,8 @@ impl BuiltinProp {
         let mut results = vec![];
         for fun_left in [true, false] {
             let mut sc2 = Scn { goals: sc.goals.clone(), vars: sc.vars.clone(), uses_copy: sc.uses_copy };
-            sc2.goals.push(if fun_left { Goal::Unify(f.clone(), partner.clone()) } else { Goal::Unify(partner.clone(), f.clone()) });
+            let emb = |t: &Term| -> Term { match wrap { 1 => Term::Cmp("w".into(), vec![t.clone()]), 2 => Term::Cmp("w".into(), vec![Term::atom("k"), t.clone(), Term::Int(7)]), _ => t.clone() } };
+            sc2.goals.push(if fun_left { Goal::Unify(emb(&f), emb(&partner)) } else { Goal::Unify(emb(&partner), emb(&f)) });
             let p = sc2.program(vec![]);
             match run(self.id, &p, None) {
                 Ok(c) => results.push((p, c)),
@@ -311,6 +315,7 @@ impl BuiltinProp {
             return fail(self.id, "sides-differ", format!("function left: {:?}\nfunction right: {:?}", a, b), format!("{}", results[0].0));
         }
         rep.class(if a.is_empty() { "outcome:fails" } else { "outcome:unifies" });
+        rep.class(["operands:top-level", "operands:arguments-of-w/1", "operands:arguments-of-w/3"][wrap]);
         rep.nontrivial(fnv(&format!("{}", results[0].0)));
         rep.sample(json!({"function_left": format!("{}", results[0].0), "function_right_body": format!("{}", results[1].0.clauses.last().unwrap()), "unifies": !a.is_empty()}));
         CaseResult::Pass
@@ -520,7 +525,7 @@ impl BuiltinProp {
     }
 
     // -------------------------------------------------------------- C16 / C17 helpers
-    fn list_value(s: &mut dyn Src, sc: &mut Scn, depth: u32, flags: &mut (bool, bool, bool)) -> Term {
+    fn list_value(s: &mut dyn Src, sc: &mut Scn, depth: u32, flags: &mut (bool, bool, bool, bool)) -> Term {
         // flags: (bound tail used, list-valued last element, element through variable)
         let n = sz(s, 4, 33) as usize;
         let mut es = vec![];
@@ -535,9 +540,26 @@ impl BuiltinProp {
         }
         let tail = if n > 0 && depth < 2 && chance(s, 1, 3) {
             flags.0 = true;
+            let how = s.draw(4);
+            let order = s.draw(4);
             let inner = Self::list_value(s, sc, depth + 1, flags);
-            let l = s.draw(2);
-            Some(Box::new(sc.bind(s, inner, l)))
+            if how == 0 {
+                // the tail variable is bound by unifying this open list with another open list whose tail variable meets
+                // it at the same position ([a, b | $T] = [a, $H | $U], $U = [...]), in either order, $U bound before or after
+                let (t, u) = (Term::Var(sc.fresh()), Term::Var(sc.fresh()));
+                let mine = Term::List(es.clone(), Some(Box::new(t.clone())));
+                let heads: Vec<Term> = es.iter().map(|e| if chance(s, 1, 2) { e.clone() } else { Term::Var(sc.fresh()) }).collect();
+                let theirs = Term::List(heads, Some(Box::new(u.clone())));
+                let bind_u = Goal::Unify(u, inner);
+                if order & 2 == 0 { sc.goals.push(bind_u.clone()); }
+                sc.goals.push(if order & 1 == 0 { Goal::Unify(mine, theirs) } else { Goal::Unify(theirs, mine) });
+                if order & 2 != 0 { sc.goals.push(bind_u); }
+                flags.3 = true;
+                Some(Box::new(t))
+            } else {
+                let l = s.draw(2);
+                Some(Box::new(sc.bind(s, inner, l)))
+            }
         } else { None };
         let l = Term::List(es, tail);
         if depth == 0 && chance(s, 1, 5) { flags.0 = true; return sc.through_copy(l); }
@@ -547,7 +569,7 @@ impl BuiltinProp {
     // -------------------------------------------------------------- C16
     fn append(&self, s: &mut dyn Src, rep: &mut Report) -> CaseResult {
         let mut sc = Scn::new();
-        let mut flags = (false, false, false);
+        let mut flags = (false, false, false, false);
         let k = 1 + sz(s, 4, 9) as usize;
         let mut args = vec![];
         for _ in 0..k {
@@ -574,6 +596,7 @@ impl BuiltinProp {
         if flags.0 { rep.class("input-list-with-bound-tail"); }
         if flags.1 { rep.class("input-list-with-list-valued-last-element"); }
         if flags.2 { rep.class("element-is-a-bound-variable"); }
+        if flags.3 { rep.class("tail-bound-by-unifying-two-open-lists"); }
         rep.class(&format!("out:{}", ["unbound", "unbound", "pattern", "literal"][okind as usize]));
         if flags.0 || flags.1 { rep.nontrivial(fnv(&format!("{}", p))); rep.sample(json!({"program": format!("{}", p), "answers": cmp.run.answers.iter().map(|a| a.display.clone()).collect::<Vec<_>>()})); }
         CaseResult::Pass
@@ -582,7 +605,7 @@ impl BuiltinProp {
     // -------------------------------------------------------------- C17
     fn misc(&self, s: &mut dyn Src, rep: &mut Report) -> CaseResult {
         let mut sc = Scn::new();
-        let mut flags = (false, false, false);
+        let mut flags = (false, false, false, false);
         let which = s.draw(5);
         let mut filter_has_var = false;
         let mut punct_late = false;
